@@ -86,11 +86,16 @@ def run_big(args, fd):
     sizes leave 32-bit range."""
     from hysim.engines import c05_session as S
     seed = args["seed"]
-    entries = S.big_catalogue()
+    entries = []
+    for name, fn in S.big_catalogue():
+        if name not in [e[0] for e in entries]:
+            entries.append((name, fn))
     for w in args["big"]:
         rs = np.random.RandomState((seed * 7919 + w * 104729 + 17) % (2 ** 31))
-        name, fn = entries[rs.randint(len(entries))]
-        n = int(S.BIG_N[rs.randint(len(S.BIG_N))])
+        # workloads enumerate (entry, length) pairs: the first
+        # len(entries)*len(BIG_N) of them cover every pair once
+        name, fn = entries[w % len(entries)]
+        n = int(S.BIG_N[(w // len(entries)) % len(S.BIG_N)])
         emit(fd, "BIG", w, name, n)
         faulthandler.dump_traceback_later(args.get("watchdog", 600), exit=True)
         try:
